@@ -45,12 +45,14 @@ class DESim(DS.DimwiseSim):
         dim = c["dim"]
         a, b = np.zeros(dim), np.ones(dim)
         X = make_data(c["data_seed"], c["n"], dim, c["lines"], c["on_boundary"] and c["boundary"])
+        if not c.get("pre_scaled", True):
+            X = X * 3.0 - 1.0       # outside the unit cube: the operation scales the data itself
         classes = None
         if c["classes"]:
             classes = np.array([1.0 if H(self.rk, "cls", i) < 0.5 else -1.0 for i in range(len(X))])
         grid = GlobalTrapezoidalGrid(a=a, b=b, boundary=c["boundary"])
         self.op = DensityEstimation(X, dim, grid=grid, masslumping=c["masslumping"], lambd=c["lambd"], classes=classes,
-                                    reuse_old_values=self.reuse, numeric_calculation=c["numeric"], print_output=False, pre_scaled_data=True,
+                                    reuse_old_values=self.reuse, numeric_calculation=c["numeric"], print_output=False, pre_scaled_data=c.get("pre_scaled", True),
                                     print_level=100, log_level=100)
         self.sa = SpatiallyAdaptiveSingleDimensions2(a, b, operation=self.op, margin=c["margin"], rebalancing=c["rebalancing"],
                                                      version=c["version"], print_level=100, log_level=100)
@@ -131,7 +133,7 @@ class C17(Check):
                "p_zero": r.choice([0.0, 0.3, 0.6]), "p_tie": r.choice([0.0, 0.2]),
                "lmin": 1, "lmax": 2 if numeric else r.choice([2, 2, 3]), "evals": r.randint(1, 2 if numeric else 4),
                "max_intervals": 6 if numeric else (24 if tier == "quick" else 40), "recalc": None, "clock_jumps": False,
-               "big": (not numeric) and r.random() < (0.03 if tier == "quick" else 0.1)}
+               "big": (not numeric) and r.random() < (0.03 if tier == "quick" else 0.1), "pre_scaled": r.random() < 0.7}
         if cfg["big"]:       # reach component grids beyond the default threshold of 200 points without the hook
             cfg.update(dim=2, lmax=5, evals=2, masslumping=True, n=40)
         return {"config": cfg, "ops": []}
